@@ -782,6 +782,11 @@ func (server *Server) registerCoreExecutors() {
 		opt.MINEXCLUSIVE = minEx
 		opt.MAXEXCLUSIVE = maxEx
 
+		// LIMIT selects from the descending order, so it is applied after the
+		// ascending range of the handler is reversed.
+		offset, count := opt.Offset, opt.Count
+		opt.Offset, opt.Count = 0, -1
+
 		msg, err := server.userCommandHandler.ZRangeByScore(conn, key, min, max, opt)
 		if err != nil {
 			return msg, err
@@ -792,10 +797,26 @@ func (server *Server) registerCoreExecutors() {
 			return msg, err
 		}
 
+		step := 1
 		if opt.WITHSCORES {
-			return NewArrayMessageWithArray(array.ReverseBy(2)), nil
+			step = 2
 		}
-		return NewArrayMessageWithArray(array.Reverse()), nil
+		msgs, err := array.ReverseBy(step).NextMessages()
+		if err != nil {
+			return nil, err
+		}
+		memberCount := len(msgs) / step
+		if offset < 0 || memberCount < offset {
+			offset = memberCount
+		}
+		if count < 0 || (memberCount-offset) < count {
+			count = memberCount - offset
+		}
+		limitedArray := proto.NewArray()
+		for _, msg := range msgs[(offset * step):((offset + count) * step)] {
+			limitedArray.Append(msg)
+		}
+		return NewArrayMessageWithArray(limitedArray), nil
 	})
 
 	server.RegisterExexutor("ZREM", func(conn *Conn, cmd string, args Arguments) (*Message, error) {
